@@ -50,7 +50,8 @@ ASSUMPTIONS = [
     "output is not judged",
     "pbind -q is taken as documented by 'calling conventions and variations are equivalent to those of AS' "
     "(utility-programs.md) and by the tool's own option table; -f is given at most once per run "
-    "(accumulation over several -f / BINDCMD plus command line is not documented); key files (@file on the "
+    "(accumulation over several -f is not documented; the one documented combination is generated: a list from BINDCMD or an earlier -f, "
+    "ids retracted from it with the negated option +f, assembler-usage.md 'neutralize options ... prefix the option with a plus sign'); key files (@file on the "
     "command line or in BINDCMD) are used as assembler-usage.md describes them: one line, switch and argument together",
     "plist: the family abbreviations are not defined by the manual; vf/c07gen.FAMILY pairs every id of the "
     "manual's table with the abbreviation(s) of that family (manual spelling accepted too); ids $34/$35 "
@@ -100,7 +101,18 @@ def strategy_(d, tier, corpus_names):
                     ids.append(d.choice([0x80, 0x81, 0xff]) if d.bool(0.3) else d.int(1, 0x7f))
             case["f"] = [[i, d.choice(G.STYLES)] for i in ids]
             case["f_via"] = d.weighted([(8, "argv"), (2, "env"), (1, "keyfile"), (1, "env-keyfile")])
-        case["opt_pos"] = d.choice(["last", "first", "mid"])
+            if len(set(ids)) >= 2 and d.bool(0.3):
+                # the documented use of a negated option: a list preset in BINDCMD (or given first on the command line),
+                # some of its ids retracted with +f; what remains is the list (nothing remains = no filter)
+                uniq = sorted(set(ids), key=ids.index)
+                case["f"] = [[i, d.choice(G.STYLES)] for i in uniq]
+                nn = d.int(1, len(uniq))
+                neg = d.shuffle(list(uniq))[:nn] if hasattr(d, "shuffle") else uniq[:nn]
+                case["f_neg"] = [[i, d.choice(G.STYLES)] for i in neg]
+                case["f_via"] = d.choice(["env", "argv"])
+                case["opt_pos"] = "last"
+        if "f_neg" not in case:
+            case["opt_pos"] = d.choice(["last", "first", "mid"])
     return case
 
 
@@ -217,6 +229,8 @@ def pbind_argv(case):
             env["BINDCMD"] = "@bind.key"
         else:
             opts += ["-f", lst]
+        if case.get("f_neg"):
+            opts += ["+f", ",".join(G.number(i, s) for i, s in case["f_neg"])]
     if case.get("quiet"):
         opts += ["-q"]
     names = [f["arg"] for f in case["files"]] + [case["target"]]
@@ -239,6 +253,10 @@ def sem(r):
 
 def pbind_expected(case, mfiles):
     ids = {i for i, _ in case["f"]} if "f" in case else None
+    if ids is not None and case.get("f_neg"):
+        ids -= {i for i, _ in case["f_neg"]}
+        if not ids:
+            ids = None           # every id retracted: as if no -f had been given
     exp, dropped = [], 0
     for f in mfiles:
         for r in f["recs"]:
@@ -302,6 +320,8 @@ def execute_pbind(case, mfiles):
         classes.append("filter-ids%d" % len(case["f"]))
         classes += sorted({"num:" + s for _, s in case["f"]})
         classes.append("filter-via-" + case.get("f_via", "argv"))
+        if case.get("f_neg"):
+            classes.append("filter-negated:%d-of-%d" % (len(case["f_neg"]), len(case["f"])))
     cpus_by_file = [{r["cpu"] for r in f["recs"] if r["kind"] == "data"} for f in mfiles]
     diffcpu = len(mfiles) >= 2 and len(set().union(*cpus_by_file)) >= 2
     nt = []
